@@ -6,6 +6,7 @@ import (
 	"time"
 
 	"verif/harness/evid"
+	"verif/harness/kmodel"
 )
 
 func init() { register("C11", checkC11) }
@@ -13,6 +14,102 @@ func init() { register("C11", checkC11) }
 type c11Config struct {
 	Unpriv bool      `json:"unprivileged"`
 	Script nnpScript `json:"script"`
+}
+
+// c11Histories: sequences of loads on different threads of one process (the no_new_privs bit is per thread, so the
+// second load on another thread must set it again). Every step is judged on what /proc shows.
+func c11Histories(ctx *evid.Ctx, tier string) (int64, int64) {
+	var ops []kmodel.Op
+	for t := 0; t < 2; t++ {
+		for _, k := range []string{kmodel.KindA, kmodel.KindB} {
+			for _, nnp := range []bool{true, false} {
+				for _, ts := range []bool{false, true} {
+					ops = append(ops, kmodel.Op{Op: "load", T: t, Kind: k, NNP: nnp, TSync: ts})
+				}
+			}
+		}
+	}
+	var hs [][]kmodel.Op
+	for _, a := range ops {
+		for _, b := range ops {
+			hs = append(hs, []kmodel.Op{a, b})
+			if tier == "thorough" {
+				for _, c := range ops {
+					hs = append(hs, []kmodel.Op{a, b, c})
+				}
+			}
+		}
+	}
+	var n, steps int64
+	for _, priv := range []bool{false, true} {
+		priv := priv
+		parallelFor(len(hs), func(i int) {
+			h := hs[i]
+			hr := runHist(histScriptFor(h), !priv)
+			perStep := 1 + c09Threads
+			if hr.TimedOut || len(hr.Results) != perStep+len(h)*(1+perStep) {
+				ctx.Capped("a C11 history child did not complete")
+				return
+			}
+			atomic.AddInt64(&n, 1)
+			model := kmodel.New(priv, c09Threads)
+			nnpOf := func(base int) map[int]int {
+				m := map[int]int{}
+				for _, o := range hr.Results[base].State {
+					m[o.Tid] = o.NNP
+				}
+				return m
+			}
+			filtOf := func(base int) map[int]int {
+				m := map[int]int{}
+				for _, o := range hr.Results[base].State {
+					m[o.Tid] = o.Filters
+				}
+				return m
+			}
+			idx := perStep
+			prevBase := 0
+			for si, o := range h {
+				res := hr.Results[idx]
+				out := model.Apply(o)
+				curBase := idx + 1
+				before, after := nnpOf(prevBase), nnpOf(curBase)
+				fb, fa := filtOf(prevBase), filtOf(curBase)
+				atomic.AddInt64(&steps, 1)
+				rep := map[string]any{"privileged": priv, "history": h[:si+1], "history_text": histString(h[:si+1])}
+				cls := map[bool]string{true: "priv", false: "unpriv"}[priv]
+				if o.NNP {
+					if after[res.Tid] != 1 {
+						ctx.Violation("C11:history:nnp-not-set:"+cls, fmt.Sprintf("NoNewPrivs requested but the bit is not set on the calling thread after step %d of [%s]", si+1, histString(h)), rep)
+					}
+					if res.Err != nil && out.Reason != "tsync-refused" {
+						ctx.Violation("C11:history:load-failed:"+cls, fmt.Sprintf("NoNewPrivs requested, valid policy, yet LoadFilter failed at step %d of [%s]: %s", si+1, histString(h), *res.Err), rep)
+					}
+				} else {
+					if !o.TSync {
+						for tid, v := range after {
+							if bv, ok := before[tid]; ok && bv != v {
+								ctx.Violation("C11:history:nnp-changed-unrequested:"+cls, fmt.Sprintf("NoNewPrivs not requested but the bit of thread %d changed at step %d of [%s]", tid, si+1, histString(h)), rep)
+							}
+						}
+					}
+					if !priv && before[res.Tid] == 0 {
+						if res.Err == nil {
+							ctx.Violation("C11:history:unpriv-load-succeeded:"+cls, fmt.Sprintf("unprivileged load without no_new_privs returned nil at step %d of [%s]", si+1, histString(h)), rep)
+						}
+						for tid, v := range fa {
+							if fb[tid] != v {
+								ctx.Violation("C11:history:unpriv-load-installed:"+cls, fmt.Sprintf("unprivileged load without no_new_privs changed a filter count at step %d of [%s]", si+1, histString(h)), rep)
+							}
+						}
+					}
+				}
+				prevBase = curBase
+				idx += 1 + perStep
+			}
+		})
+	}
+	return n, steps
 }
 
 func checkC11(tier, replay string) int {
@@ -130,7 +227,13 @@ func checkC11(tier, replay string) int {
 			ctx.Sample(map[string]any{"config": c, "moved": rep.Moved, "migration_impossible": rep.MoveImpossible, "prctl_tid": rep.PrctlTid, "seccomp_tid": rep.SeamTid, "nnp_at_seam": rep.NNPAtSeam, "err": rep.Err})
 		}
 	})
-	ctx.Cov["states"] = len(cfgs)
+	var histories, histSteps int64
+	if replay == "" {
+		histories, histSteps = c11Histories(ctx, tier)
+	}
+	ctx.Cov["multi_load_histories_replayed"] = histories
+	ctx.Cov["multi_load_history_steps_checked"] = histSteps
+	ctx.Cov["states"] = len(cfgs) + int(histories)
 	ctx.Cov["transitions"] = children
 	ctx.Cov["traces_validated_against_impl"] = children
 	ctx.Cov["schedules_with_goroutine_moved_between_prctl_and_seccomp"] = moved
@@ -138,7 +241,7 @@ func checkC11(tier, replay string) int {
 	ctx.Cov["moved_to_thread_born_during_load"] = movedNew
 	ctx.Cov["schedules_where_migration_is_impossible_because_loader_is_wired_to_its_thread"] = impossible
 	ctx.Cov["children_in_which_the_migration_manoeuvre_worked_on_an_unpinned_control_goroutine"] = controlOK
-	ctx.Cov["rule"] = "states = {privileged, uid 65534} x NoNewPrivs x flags {0,tsync,log,tsync|log} x loader on main / other goroutine x thread placement at the single seam between prctl(2) and seccomp(2): stay, or forced migration (a helper goroutine takes over and wires itself to the loader's thread so that the runtime must resume the loader on another thread; with and without a pool of idle threads / with all idle threads wired); the manoeuvre is first shown to work on an unpinned control goroutine in the same process; each configuration runs the real LoadFilter in a fresh child; observed: result, tid and no_new_privs bit at the seam, per-thread NoNewPrivs/Seccomp before and after"
+	ctx.Cov["rule"] = "states = {privileged, uid 65534} x NoNewPrivs x flags {0,tsync,log,tsync|log} x loader on main / other goroutine x thread placement at the single seam between prctl(2) and seccomp(2): stay, or forced migration (a helper goroutine takes over and wires itself to the loader's thread so that the runtime must resume the loader on another thread; with and without a pool of idle threads / with all idle threads wired); the manoeuvre is first shown to work on an unpinned control goroutine in the same process; each configuration runs the real LoadFilter in a fresh child; observed: result, tid and no_new_privs bit at the seam, per-thread NoNewPrivs/Seccomp before and after; plus every history of two (thorough: three) loads over two threads x {A,B} x NoNewPrivs x tsync in one process, privileged and unprivileged, judged step by step on /proc (the bit is per thread: a second load on another thread must set it again)"
 	ctx.Assumptions = []string{"the only scheduling fact that matters between prctl and seccomp is which OS thread executes seccomp(2); instruction-level preemption inside the runtime is not enumerated", "if the loader is wired to its thread, migration is impossible and the property holds by construction (counted separately)"}
 	return ctx.Finish()
 }
